@@ -222,6 +222,8 @@ pub fn run(ctx: &Ctx) -> Outcome {
     for i in 0..rchunks {
         work.push((usize::MAX, i, n_random / rchunks));
     }
+    // group numbers whose slot arithmetic would wrap or that do not fit usize
+    work.push((usize::MAX - 1, 0, 0));
     let route_seen = AtomicU64::new(0);
     let fixture_failures = AtomicU64::new(0);
     let acc = par_run(&work, false, None, |_, &(len, a, b), acc| {
@@ -336,7 +338,14 @@ pub fn run(ctx: &Ctx) -> Outcome {
                 acc.sample(1, || json!({"template": tpl, "default_model": format!("{:?}", parse_default(tpl))}));
             }
         };
-        if len == usize::MAX {
+        if len == usize::MAX - 1 {
+            for n in ["4294967296", "4294967297", "9223372036854775807", "9223372036854775808", "9223372036854775809", "18446744073709551614", "18446744073709551615", "18446744073709551616", "99999999999999999999", "340282366920938463463374607431768211456"] {
+                for tpl in [format!("${}", n), format!("<${{{}}}>", n), format!("${} $0", n), format!("\\{}", n), format!("\\g<{}>x", n), format!("a${}b\\g<{}>", n, n)] {
+                    one(acc, &tpl);
+                    acc.count("templates-with-huge-group-numbers");
+                }
+            }
+        } else if len == usize::MAX {
             for _ in 0..b {
                 let l = 2 + rng.below(13) as usize;
                 let tpl: String = if rng.chance(1, 2) { (0..l).map(|_| *rng.pick(&WIDE)).collect() } else { (0..l.max(7)).map(|_| *rng.pick(&ALPHA)).collect() };
@@ -351,7 +360,7 @@ pub fn run(ctx: &Ctx) -> Outcome {
     let mut out = Outcome::new(acc);
     out.distinct_nontrivial = out.acc.distinct;
     out.exhaustive = true;
-    out.rule = format!("all templates over the 14 symbols $ {{ }} \\ g < > 0 1 9 x _ é space up to length {} (exhaustive, {} templates) plus {} seeded random ones of length 2-16, half of them over a wider alphabet with non-ASCII digits / letters / marks (٣ ² π １ · ⅷ combining acute, emoji); x 6 capture sets (named incl. digit-only names, a group literally named 1x and an unmatched group, on both routes; 10 numbered groups; multi-byte and empty group texts) x both expanders x expansion / append_expansion / write_expansion (into a Vec and into writers that take 1 or 3 bytes per call) / write_expansion_vec / Captures::expand against the model and each other; expansion(escape(s)) = s; check = Ok => every reference the model extracts names an existing group. Non-trivial: distinct templates containing >= 1 substitution under either syntax.", maxlen, (0..=maxlen).map(|l| 14u64.pow(l as u32)).sum::<u64>(), n_random);
+    out.rule = format!("all templates over the 14 symbols $ {{ }} \\ g < > 0 1 9 x _ é space up to length {} (exhaustive, {} templates) plus {} seeded random ones of length 2-16, plus 60 templates with group numbers around 2^32, 2^63, 2^64 and beyond, half of the random ones over a wider alphabet with non-ASCII digits / letters / marks (٣ ² π １ · ⅷ combining acute, emoji); x 6 capture sets (named incl. digit-only names, a group literally named 1x and an unmatched group, on both routes; 10 numbered groups; multi-byte and empty group texts) x both expanders x expansion / append_expansion / write_expansion (into a Vec and into writers that take 1 or 3 bytes per call) / write_expansion_vec / Captures::expand against the model and each other; expansion(escape(s)) = s; check = Ok => every reference the model extracts names an existing group. Non-trivial: distinct templates containing >= 1 substitution under either syntax.", maxlen, (0..=maxlen).map(|l| 14u64.pow(l as u32)).sum::<u64>(), n_random);
     out.assumptions = vec!["the model (c12.rs parse_default / parse_python) is written from the documentation of Captures::expand and Expander::python".into()];
     let rs = route_seen.load(Ordering::Relaxed);
     let subst = out.acc.get("expansions-with-nonempty-substitution");
